@@ -12,6 +12,7 @@ import (
 	"path/filepath"
 	"regexp"
 	"sort"
+	"strconv"
 	"strings"
 )
 
@@ -55,9 +56,22 @@ type FuncSpec struct {
 	Pkg      string
 	Where    string
 	Asserts  map[string]bool
+	Asserts2 []AssertClause // obligations at call sites
 	GhostInit []GhostInit // ghost entries of freshly allocated results defined at return
 	NoWrap   bool     // stated assumption: unsigned additions in this function do not wrap around
+	Opaque   []string // predicates kept opaque (uninterpreted over their computed footprint) while verifying this function
 	Refines  []string // interface methods ("pkg.Iface.Method") whose contract this implementation must satisfy
+}
+
+// AssertClause: `assert label before <callee suffix>#<n>: expr` - an obligation checked just before the n-th call of
+// that callee, over the source-level variables in scope there.
+type AssertClause struct {
+	Label  string
+	Callee string
+	N      int
+	Expr   ast.Expr
+	Src    string
+	Where  string
 }
 
 type GhostInit struct {
@@ -151,7 +165,7 @@ func extractSpecLines(text string) (lines []string, nums []int) {
 	return
 }
 
-var clauseKeywords = []string{"requires", "ensures", "modifies", "loop", "invariant", "decreases", "let", "fresh", "pure", "trusted", "effect", "crash", "havoc", "assume", "refines", "ghostinit"}
+var clauseKeywords = []string{"requires", "ensures", "modifies", "loop", "invariant", "decreases", "let", "fresh", "pure", "trusted", "effect", "crash", "havoc", "assume", "refines", "ghostinit", "assert", "opaque"}
 var blockKeywords = []string{"func", "invoke", "ghost", "spec", "pred", "axiom", "global", "abstraction", "writers", "typeinv", "callbackframe", "locked"}
 
 func firstWord(s string) (string, string) {
@@ -638,6 +652,19 @@ func (sp *Specs) parseSpecText(file, text, pkgPath string) {
 				for _, n := range strings.Split(rest, ",") {
 					cur.Fresh = append(cur.Fresh, strings.TrimSpace(n))
 				}
+			case "assert":
+				m := regexp.MustCompile(`^([A-Za-z_][A-Za-z0-9_]*)\s+before\s+(\S+)#([0-9]+)\s*:\s*(.*)$`).FindStringSubmatch(rest)
+				if m == nil {
+					sp.errf(where, "bad assert clause (assert label before callee#n: expr)")
+					continue
+				}
+				e, rw, err := parseSpecExpr(m[4])
+				if err != nil {
+					sp.errf(where, "assert: %v", err)
+					continue
+				}
+				n, _ := strconv.Atoi(m[3])
+				cur.Asserts2 = append(cur.Asserts2, AssertClause{Label: m[1], Callee: m[2], N: n, Expr: e, Src: rw, Where: where})
 			case "ghostinit":
 				// ghostinit name(key) = value   : key must denote an object allocated by this function
 				m := regexp.MustCompile(`^([A-Za-z_][A-Za-z0-9_]*)\((.*)\)\s*=\s*(.*)$`).FindStringSubmatch(rest)
@@ -657,6 +684,12 @@ func (sp *Specs) parseSpecText(file, text, pkgPath string) {
 					cur.NoWrap = true
 				} else {
 					sp.errf(where, "unknown assumption %q", rest)
+				}
+			case "opaque":
+				for _, n := range strings.Split(rest, ",") {
+					if n = strings.TrimSpace(n); n != "" {
+						cur.Opaque = append(cur.Opaque, n)
+					}
 				}
 			case "refines":
 				cur.Refines = append(cur.Refines, strings.Trim(strings.TrimSpace(rest), "\""))
